@@ -11,6 +11,11 @@ use nitrogql_config_file::{Config, GenerateMode, parse_config};
 use nitrogql_error::{PositionedError, print_positioned_error};
 use nitrogql_parser::{parse_operation_document, parse_type_system_document};
 use nitrogql_plugin::Plugin;
+
+thread_local! {
+    /// which plugins the resolver type printer gets (see run_project)
+    pub static RESOLVER_PLUGINS: std::cell::Cell<u8> = const { std::cell::Cell::new(0) };
+}
 use nitrogql_printer::{
     GraphQLPrinter, OperationJSPrinterOptions, OperationTypePrinterOptions, ResolverTypePrinter, ResolverTypePrinterOptions, SchemaTypePrinter, SchemaTypePrinterOptions, print_js_for_operation_document,
     print_types_for_operation_document,
@@ -323,7 +328,15 @@ pub fn run_project(input: &ProjectInput) -> PipelineResult {
         let mut options = ResolverTypePrinterOptions::from_config(&config);
         options.schema_source = config.generate.schema_module_specifier.clone().unwrap_or_else(|| "./schema.js".into());
         let mut printer = ResolverTypePrinter::new(options, &mut writer);
-        let plugins: Vec<Plugin> = vec![];
+        // plugins of the resolver printer, chosen by the monitor (thread-local): 0 none, 1 model, 2 model then
+        // graphql-scalars, 3 graphql-scalars then model
+        let mk = |n: &str| -> Plugin { if n == "model" { Plugin::new(Box::new(nitrogql_plugin::ModelPlugin {})) } else { Plugin::new(Box::<nitrogql_plugin::GraphQLScalarsPlugin>::default()) } };
+        let plugins: Vec<Plugin> = match RESOLVER_PLUGINS.with(|c| c.get()) {
+            1 => vec![mk("model")],
+            2 => vec![mk("model"), mk("scalars")],
+            3 => vec![mk("scalars"), mk("model")],
+            _ => vec![],
+        };
         let r = printer.print_document(&resolved, &plugins).map_err(|e| format!("{e}"));
         (r, writer.into_buffers())
     }) {
